@@ -12,7 +12,14 @@ spanning several lines, trailing '--' and '/* */' after the code of a line), wit
       non-decreasing source order.  (T) implies that no item contains anything that was code, and (E) implies that no
       comment text shows up inside an entity.
 
-Defects of the unchanged tree are decided from the INPUT (which comment forms were inserted), see tags_of()."""
+Defects of the unchanged tree are decided from the INPUT (which comment forms were inserted), see tags_of() / build():
+  TAG_INDENTED   indented (not column 0) block comment of >= 3 lines, or of 2 lines whose closing line contains '--' or '/*'
+  TAG_BLOCK_DASH '--' on the opening (or only) line of a '/* */' comment (whole-line, trailing or multi-line)
+  TAG_TDASH_OPEN '/*' in the text of a trailing '--' comment
+  TAG_QUOTE_LED  comment line before (or trailing comment on the line before) a line that starts with \\w*'
+  TAG_LAST_STMT  comment line after the last line, where that line is a one-line statement reached from a statement
+                 without ';' over one-line statements only (the comment-free script loses that statement)
+A failing script of such a class is reported under the class only if its other insertions alone are harmless."""
 import re
 
 from bounded import stmts as S
@@ -23,7 +30,7 @@ TAG_INDENTED = "c08:indented-multi-line-block-comment-with-inner-line-or-marker-
 TAG_TDASH_OPEN = "c08:trailing-dash-comment-text-contains-block-open-marker"
 TAG_BLOCK_DASH = "c08:block-comment-line-contains-double-dash"
 TAG_QUOTE_LED = "c08:comment-before-line-starting-with-quote"
-TAG_LAST_STMT = "c08:comment-line-after-one-line-last-statement-that-follows-an-unterminated-statement"
+TAG_LAST_STMT = "c08:comment-line-after-last-one-line-statement-behind-unterminated-statement"
 
 MARKERS = ("--", "/*", "*/")
 
@@ -103,10 +110,20 @@ NEW_STMT = re.compile(r"^\s*(ALTER|CREATE|DROP|SET) ", re.I)
 
 
 def last_line_starts_open_statement(lines):
-    """the last line starts a statement and the statement before it is not ';'-terminated (the script alone loses that
-    last statement: it is only parsed if some further line follows)"""
+    """the last line starts a statement and, going back over one-line statements, a statement that is not ';'-terminated
+    precedes it (each such statement is only parsed when the next one starts, so the script alone loses the last one:
+    it is parsed only if some further line follows)"""
     ls = [ln for ln in lines if ln.strip()]
-    return len(ls) >= 2 and bool(NEW_STMT.match(ls[-1])) and not ls[-2].rstrip().endswith(";")
+    i = len(ls) - 1
+    if i < 1 or not NEW_STMT.match(ls[i]):
+        return False
+    while i >= 1:
+        if not ls[i - 1].rstrip().endswith(";"):
+            return True
+        if not NEW_STMT.match(ls[i - 1]):
+            return False
+        i -= 1
+    return False
 
 
 def build(lines, inserts, final_newline=False):
